@@ -241,6 +241,533 @@ def compare_history(p, h, r):
             return ("budget/%s" % ("complete" if chunks else "verify"), "max=%s: model %s, code %s" % (last["arg"], exp, fin))
     return None
 
+# ------------------------------------------------------------------------------------------------
+# 3. opaque programs: schedules, direct judgement, trace validation
+# ------------------------------------------------------------------------------------------------
+
+def abstract_shapes(c):
+    """All histories of the abstract model (<= 3 chunks, then completion or a budget): the partition shapes."""
+    res = V.tlc(PID, "MC_ScriptChunk", "MC_ScriptChunk_shapes.cfg", workers=8, timeout=900, xmx="8g")
+    if res["violated"]:
+        raise V.ToolError("shapes config violates %s" % res["violated"])
+    V.require_coverage(res, ["MCChunk", "MCBudget"], "shapes")
+    c.add_tlc(res, "MC_ScriptChunk_shapes.cfg")
+    shapes = set()
+    for h in V.tlc_json_lines(res["out"], "HIST"):
+        lims = tuple(e["arg"] for e in h if e["op"] == "chunk")
+        bud = h[-1]["arg"] if h[-1]["op"] == "budget" else None
+        if lims:
+            shapes.add((lims, bud))
+    if len(shapes) < 500:
+        raise V.ToolError("too few partition shapes: %d" % len(shapes))
+    return sorted(shapes, key=lambda x: (x[0], -1 if x[1] is None else x[1]))
+
+
+ABS_COST = 11   # cost of Abs1 in MC_ScriptChunk.tla
+
+
+def scale_shape(shape, need, rng):
+    lims, bud = shape
+    sched = []
+    for l in lims:
+        if l > ABS_COST:
+            sched.append({"lim": U64})
+        else:
+            sched.append({"lim": max(0, l * need // ABS_COST + rng.choice([-1, 0, 0, 1, rng.randrange(-50, 50)]))})
+    if bud is None:
+        fin = {"kind": "max"}
+    elif abs(bud - ABS_COST) <= 1:
+        fin = {"kind": "complete", "max": need + (bud - ABS_COST)}
+    elif bud > ABS_COST:
+        fin = {"kind": "complete", "max": U64}
+    else:
+        fin = {"kind": "complete", "max": bud * need // ABS_COST}
+    return sched, fin
+
+
+def pending_io(full):
+    """IO that process_io() would have completed is still pending inside a suspended state (never legal between
+    iterations): a reader and a writer blocked on the two ends of one pipe, or a VM blocked on a pipe whose other
+    end is closed"""
+    if not full:
+        return False
+    reads, writes, open_fds = set(), set(), {fd for fd, _ in full["fds"]}
+    for _, st in full["vms"]:
+        m = re.match(r"read(\d+):", st)
+        if m:
+            reads.add(int(m.group(1)))
+        m = re.match(r"write(\d+):", st)
+        if m:
+            writes.add(int(m.group(1)))
+    return any((r ^ 1) in writes for r in reads) or any((f ^ 1) not in open_fds for f in reads | writes)
+
+
+def opaque_binding(c, progs, tier, rng, shapes, dag_models=()):
+    """progs: names of the catalogue; dag_models: (dag, model reference run) pairs of VmScheduler.tla"""
+    specs = [{"prog": p} for p in progs] + [{"prog": "dag", "dag": dag_job(d)} for d, _ in dag_models]
+    names = list(progs) + ["dag#%d" % n for n in range(len(dag_models))]
+    models = {("dag#%d" % n): m for n, (_, m) in enumerate(dag_models)}
+    refs = harness([dict(sp, mode="ref") for sp in specs], "refs")
+    codes = Codes()
+    jobs, meta = [], []
+    n_shapes = 30 if tier == "quick" else 120
+    snap = {"compared": 0, "equal": 0}
+    for p, sp, ref in zip(names, specs, refs):
+        if p.startswith("dag#"):
+            n_shapes_p = n_shapes // 3
+        else:
+            n_shapes_p = n_shapes
+        need = sum(g.get("need", 0) for g in ref["groups"])
+        ok = ref["ref"]["kind"] == "ok"
+        if ok and need != ref["ref"]["cycles"]:
+            c.violation("cycles-differ/iterate-vs-verify/%s" % p, "%s: Scheduler::iterate() total %d, verify %d"
+                        % (p, need, ref["ref"]["cycles"]), {"kind": "ref", "prog": p, "ref": ref})
+            continue
+        if not ok:
+            # cycles consumed until the failing group's verdict
+            need = 0
+            for g in ref["groups"]:
+                need += g.get("need", 0)
+                if g["kind"] != "ok":
+                    break
+        heavy = need > 5_000_000
+        def add(sched, fin, why, cap=None, sp=sp):
+            j = dict(sp, mode="chunks", sched=sched, fin=fin, detail=True)
+            if cap:
+                j["cap"] = cap
+            jobs.append(j)
+            meta.append({"prog": p, "why": why, "need": need})
+        # (a) TLC partition shapes at real magnitude
+        for sh in rng.sample(shapes, (n_shapes_p // 4) if heavy else n_shapes_p):
+            sched, fin = scale_shape(sh, need, rng)
+            add(sched, fin, "shape")
+        # (b) cuts at scheduler-iteration boundaries
+        bounds = ref.get("bounds") or []
+        ks = list(range(1, len(bounds) + 1))
+        if len(ks) > (16 if tier == "quick" else 60):
+            ks = sorted(rng.sample(ks, 16 if tier == "quick" else 60))
+        for k in ks:
+            width = bounds[k - 1] - (bounds[k - 2] if k >= 2 else 0)
+            for off in [-1, 0, 1, -(width // 2)]:
+                add([{"iter": k, "off": off}], {"kind": "max"}, "iter")
+        for _ in range(0 if not bounds else (6 if tier == "quick" else 30)):
+            k1, k2 = sorted(rng.sample(range(1, len(bounds) + 1), 2)) if len(bounds) >= 2 else (1, 1)
+            add([{"iter": k1, "off": rng.choice([-1, 0, 1])}, {"iter": k2, "off": rng.choice([-1, 0, 1])}], {"kind": "max"}, "iter2")
+        # (c) group boundaries of multi-group transactions
+        if len(ref["groups"]) > 1:
+            acc = 0
+            for g in ref["groups"][:-1]:
+                acc += g.get("need", 0)
+                for off in (-1, 0, 1):
+                    add([{"to": acc + off}], {"kind": "max"}, "group-boundary")
+                    add([{"to": acc + off}], {"kind": "complete", "max": need - 1}, "group-boundary-budget")
+        # (d) swept step sizes
+        steps = {need // d + 1 for d in (2, 3, 5, 7, 13)} | {rng.randrange(need // 40 + 2, need + 2) for _ in range(3 if tier == "quick" else 10)}
+        if not heavy:
+            steps |= {need // d + 1 for d in (31, 97)} | {rng.randrange(200, need // 8 + 300) for _ in range(2 if tier == "quick" else 8)}
+        for st in sorted(steps):
+            add([], {"kind": "step", "lim": st}, "step", cap=3000)
+        # (e) budgets: verify and complete around the cost
+        for rel in (-1, 0, 1):
+            jobs.append(dict(sp, mode="verify", max=max(0, need + rel)))
+            meta.append({"prog": p, "why": "verify", "need": need})
+            add([{"to": max(1, need // 2)}], {"kind": "complete", "max": max(0, need + rel)}, "complete")
+            add([{"to": max(1, need // 3)}, {"to": max(2, need * 4 // 5)}], {"kind": "complete", "max": max(0, need + rel)}, "complete")
+        # (f) the signal path used by the tx-pool
+        for n in range(2 if tier == "quick" else 6):
+            for mx in (U64, need, max(0, need - 1)):
+                jobs.append(dict(sp, mode="signal", max=mx, seed=V.seed() * 100 + n, cmds=1 + n % 4,
+                                 gap_us=150 if not heavy else 8000))
+                meta.append({"prog": p, "why": "signal", "need": need})
+    V.log("[C05] opaque: %d programs, %d runs scheduled" % (len(progs), len(jobs)))
+    out = harness(jobs, "opaque", timeout=2400)
+    refof = {p: r for p, r in zip(names, refs)}
+    trace_path = os.path.join(V.workdir(PID), "trace_opaque.ndjson")
+    stats = {"runs": 0, "suspended_runs": 0, "capped": 0, "truncated_by_known_finding": 0, "overshoot_chunks": 0,
+             "no_progress_chunks": 0, "budget_runs": 0, "signal_runs": 0, "signal_suspends": 0, "chunks": 0}
+    runs_in_trace = []
+    with open(trace_path, "w") as tf:
+        for j, m, r in zip(jobs, meta, out):
+            p, need = m["prog"], m["need"]
+            ref = refof[p]
+            stats["runs"] += 1
+            evs, verdict = judge_run(j, m, r, ref, codes, stats)
+            if p in models:
+                compare_snapshots(models[p], ref, r, snap)
+            susp = sum(1 for ch in r.get("chunks", []) if ch["res"] == "susp" and ch["pos"] > 0)
+            nontrivial = susp > 0 or (j["mode"] in ("verify", "signal") and abs(j.get("max", 0) - need) <= 1)
+            c.case({"prog": p, "job": {k: v for k, v in j.items() if k != "id"}}, nontrivial)
+            if susp:
+                stats["suspended_runs"] += 1
+            if verdict is not None:
+                key, text = verdict
+                known = not c.violation(key, "%s: %s" % (p, text), {"kind": "run", "job": j, "observed": r, "ref": ref["ref"]})
+                if known:
+                    stats["truncated_by_known_finding"] += 1
+                continue          # a run that already failed the direct judgement is not fed to TLC again
+            if evs:
+                runs_in_trace.append((len(evs), j, r))
+                for e in evs:
+                    tf.write(json.dumps(e) + "\n")
+    if stats["suspended_runs"] < 100 or stats["budget_runs"] < 20 or stats["signal_runs"] < 10:
+        raise V.ToolError("vacuous opaque run: %s" % stats)
+    validate_trace(c, trace_path, runs_in_trace, "opaque")
+    stats["dag_snapshots_compared_with_model"] = snap["compared"]
+    stats["dag_snapshots_equal_to_model"] = snap["equal"]
+    c.set("opaque", stats)
+    c.add("traces_validated_against_impl", len(runs_in_trace))
+    for (n, j, r) in runs_in_trace[:: max(1, len(runs_in_trace) // 2)][:2]:
+        c.sample({"opaque_run": {"job": {k: v for k, v in j.items() if k != "id"}, "chunks": [{k: v for k, v in ch.items() if k != "full"} for ch in r.get("chunks", [])][:6], "final": r.get("final")}})
+    V.log("[C05] opaque: %s" % stats)
+
+
+def compare_snapshots(model, ref, r, snap):
+    """Diagnostic only (the property does not speak about snapshot contents): a snapshot taken exactly at an iteration
+    boundary without overshoot holds the VM states / instantiated set VmScheduler.tla has there."""
+    bounds = ref.get("bounds") or []
+    prev = 0
+    for ch in r.get("chunks", []):
+        if ch["res"] != "susp" or "full" not in ch:
+            continue
+        pos, over = ch["pos"], ch["pos"] - prev > ch["lim"]
+        prev = pos
+        if over or pos not in bounds:
+            continue
+        k = bounds.index(pos)
+        if bounds.count(pos) != 1 or k >= len(model["log"]):
+            continue
+        e = model["log"][k]
+        exp = [[v, model_state(x)] for v, x in enumerate(e["states"]) if model_state(x)]
+        snap["compared"] += 1
+        if exp == ch["full"]["vms"] and sorted(ch["full"]["inst"]) == e["inst2"]:
+            snap["equal"] += 1
+        elif snap["compared"] - snap["equal"] <= 3:
+            V.log("[C05] note: snapshot at iteration boundary %d differs from the model: %s inst %s vs model %s inst %s"
+                  % (k, ch["full"]["vms"], ch["full"]["inst"], exp, e["inst2"]))
+
+
+def opaque_groups(ref, codes):
+    gs = []
+    for n, g in enumerate(ref["groups"]):
+        code = 0
+        if g["kind"] != "ok":
+            # the class of the whole-transaction failure names the group; per-group classes lack the source
+            code = codes.of(ref["ref"]["class"]) if ref["ref"]["kind"] != "ok" else codes.of(g["class"])
+        need = g.get("need", 0)
+        gs.append({"ch": [{"c": need, "need": need}], "exit": code, "opaque": True})
+        if code:
+            break
+    return gs
+
+
+def judge_run(j, m, r, ref, codes, stats):
+    """-> (trace events | None, None | (key, text))"""
+    p, need = m["prog"], m["need"]
+    refres = ref["ref"]
+    groups = opaque_groups(ref, codes)
+    evs = [{"ev": "Reset", "prog": p, "groups": groups}]
+    fin = r["final"]
+    if j["mode"] == "verify" or j["mode"] == "signal":
+        mx = j["max"]
+        exp_exceeded = mx < need
+        kind = "signal" if j["mode"] == "signal" else "verify"
+        stats["budget_runs" if kind == "verify" else "signal_runs"] += 1
+        if kind == "signal":
+            stats["signal_suspends"] += fin.get("suspends_sent", 0)
+        if exp_exceeded:
+            if fin["kind"] == "ok":
+                return None, ("budget/%s-below-cost-succeeds" % kind + ("/after-pause" if fin.get("suspends_sent") else ""),
+                              "%s(max=%d) returned Ok(%d); uninterrupted cost %d" % (kind, mx, fin["cycles"], need))
+            if fin["class"] != "exceeded":
+                return None, ("budget/%s-wrong-error" % kind, "%s(max=%d) below the cost %d returned %s" % (kind, mx, need, fin))
+        elif not same_final(fin, refres):
+            return None, ("budget/%s-differs-from-unlimited" % kind, "%s(max=%s) with cost %d returned %s, unlimited run %s" % (kind, mx, need, fin, refres))
+        e = {"ev": "Budget" if kind == "verify" else "Signal", "max": lim_tla(mx), "stop": False}
+        e.update(final_event(fin, codes))
+        return evs + [e], None
+    # chunk schedules
+    chunks = r["chunks"]
+    stats["chunks"] += len(chunks)
+    prev_pos, prev_full, io_pending_at = 0, None, None
+    for n, ch in enumerate(chunks):
+        e = {"ev": "Chunk", "lim": lim_tla(ch["lim"])}
+        if ch["res"] == "susp":
+            if ch["pos"] == prev_pos:
+                stats["no_progress_chunks"] += 1
+            if ch["pos"] - prev_pos > ch["lim"]:
+                stats["overshoot_chunks"] += 1
+            if pending_io(ch.get("full")):
+                io_pending_at = n     # diagnostic only: legal iff the IO is completed when the state is resumed
+            e.update({"res": "susp", "cur": ch["cur"], "done": ch["done"], "gcons": ch["gcons"]})
+            prev_pos, prev_full = ch["pos"], ch.get("full")
+        elif ch["res"] == "done":
+            e.update({"res": "done", "cycles": ch["cycles"]})
+        else:
+            e.update({"res": "exceeded"} if ch["class"] == "exceeded" else {"res": "fail", "code": codes.of(ch["class"])})
+        evs.append(e)
+    if fin is None:
+        return evs, None
+    if fin["kind"] == "capped":
+        stats["capped"] += 1
+        return evs, None         # did not terminate within the cap: not evaluated (prefix still validated)
+    if r.get("finisher") and r["finisher"].get("complete") is not None:
+        mx = r["finisher"]["complete"]
+        stats["budget_runs"] += 1
+        call = "complete" if chunks and chunks[-1]["res"] == "susp" else "verify"
+        if mx < need:
+            if fin["kind"] == "ok":
+                inside = bool(chunks) and chunks[-1].get("gcons", 0) > 0
+                return None, ("budget/%s-below-cost-succeeds" % call + ("/suspended-inside-group" if inside else ""),
+                              "%s(max=%d) returned Ok(%d); uninterrupted cost %d" % (call, mx, fin["cycles"], need))
+            if fin["class"] != "exceeded":
+                return None, ("budget/%s-wrong-error" % call, "%s(max=%d) below the cost %d returned %s" % (call, mx, need, fin))
+        elif not same_final(fin, refres):
+            return None, ("budget/%s-differs-from-unlimited" % call, "%s(max=%s) with cost %d returned %s, unlimited run %s" % (call, mx, need, fin, refres))
+        e = {"ev": "Budget", "max": lim_tla(mx)}
+        e.update(final_event(fin, codes))
+        return evs + [e], None
+    if not same_final(fin, refres):
+        if refres["kind"] == "ok" and fin["kind"] == "err" and fin["class"].startswith("deadlock"):
+            why = ""
+            if io_pending_at is not None:
+                ch = chunks[io_pending_at]
+                why = ("; chunk %d (limit %d) was suspended with IO pending that process_io() completes (matched reader/"
+                       "writer or closed other end: vms %s) and it was never completed after the resume"
+                       % (io_pending_at, ch["lim"], ch["full"]["vms"]))
+            return None, ("verdict-differs/deadlock-after-cycle-limit-suspend",
+                          "chunked run ends in a deadlock error, uninterrupted run passes with %d cycles; limits %s%s"
+                          % (refres["cycles"], [ch["lim"] for ch in chunks][-4:], why))
+        if fin["kind"] == "ok" and refres["kind"] == "ok":
+            return None, ("cycles-differ/chunked", "chunked run %d cycles, uninterrupted %d; limits %s"
+                          % (fin["cycles"], refres["cycles"], [ch["lim"] for ch in chunks][-4:]))
+        return None, ("verdict-differs/chunked", "chunked run %s, uninterrupted %s" % (fin, refres))
+    return evs, None
+
+
+def validate_trace(c, trace_path, runs_in_trace, tag):
+    cfg = os.path.join(V.workdir(PID), "Trace_ScriptChunk_%s.cfg" % tag)
+    with open(cfg, "w") as f:
+        f.write("SPECIFICATION TSpec\nCONSTANTS\n InitGroups <- NoGroups\n Limits <- None\n Budgets <- None\n MaxChunks = 1000000\n"
+                " Variant = \"intended\"\nINVARIANT ChunkInvariance\nINVARIANT BudgetExact\nINVARIANT Accounting\n"
+                "POSTCONDITION Accepted\nCHECK_DEADLOCK FALSE\n")
+    ok, res = V.validate_trace(PID, "Trace_ScriptChunk", cfg, trace_path, tag="trace_" + tag, timeout=1500, xmx="8g")
+    events = sum(n for n, _, _ in runs_in_trace)
+    c.add("trace_events_validated", events)
+    if ok:
+        return True
+    m = re.search(r'<<\s*"TRACE-REJECTED",\s*(\d+),', res["out"])
+    at = int(m.group(1)) if m else -1
+    if at < 0 and not res["violated"]:
+        V.log(res["out"][-3000:])
+        raise V.ToolError("trace validation failed without a rejection point")
+    # find the run containing event `at` (1-based); with an invariant violation TLC stops at the violating state
+    if at < 0:
+        dm = re.findall(r"^State (\d+):", res["out"], re.M)
+        at = int(dm[-1]) - 1 if dm else 1
+    acc = 0
+    for n, j, r in runs_in_trace:
+        if acc + n >= at:
+            c.violation("trace/%s/%s" % (res["violated"] or "not-a-behaviour", j["mode"]),
+                        "%s: the calls of this run are not a behaviour of ScriptChunk.tla (event %d of the run)" % (j["prog"], at - acc),
+                        {"kind": "run", "job": j, "observed": r, "tlc_tail": res["out"][-1500:]})
+            break
+        acc += n
+    return False
+
+
+# ------------------------------------------------------------------------------------------------
+# 4. VmScheduler.tla: spawn_dag-class programs
+# ------------------------------------------------------------------------------------------------
+
+def make_dag(parent, writes, mutate=None):
+    """parent[i] = logical parent of VM i (parent[0] = -1); writes = [(from, to, len)]; pipes are created at the lowest
+    common ancestor and handed down along the spawn edges (as script's test generator does).
+    mutate = ("noreader" | "nowriter", e): the reader / writer of write e never shows up."""
+    n = len(parent)
+
+    def chain(x):
+        c = [x]
+        while parent[c[-1]] >= 0:
+            c.append(parent[c[-1]])
+        return c
+    edge_fds = {i: [] for i in range(1, n)}
+    pipes, ws = [], []
+    for e, (a, b, ln) in enumerate(writes):
+        r, w = 2 * e, 2 * e + 1
+        ca, cb = chain(a), chain(b)
+        anc = next(x for x in ca if x in cb)
+        for x in ca[:ca.index(anc)]:
+            edge_fds[x].append(w)
+        for x in cb[:cb.index(anc)]:
+            edge_fds[x].append(r)
+        pipes.append({"vm": anc, "r": r, "w": w})
+        ws.append({"from": a, "ffd": w, "to": b, "tfd": r, "len": ln})
+    if mutate:
+        kind, e = mutate
+        ws[e]["to" if kind == "noreader" else "from"] = 99
+    pipes.sort(key=lambda p: p["vm"])
+    spawns = [{"from": parent[i], "child": i, "fds": edge_fds[i]} for i in range(1, n)]
+    return {"n": n, "spawns": spawns, "pipes": pipes, "writes": ws}
+
+
+def dag_job(d):
+    return {"spawns": [[x["from"], x["child"], x["fds"]] for x in d["spawns"]],
+            "pipes": [[x["vm"], x["r"], x["w"]] for x in d["pipes"]],
+            # spawn_dag.c transfers the molecule `Bytes` field with its 4-byte header: model length = payload + 4
+            "writes": [[x["from"], x["ffd"], x["to"], x["tfd"], x["len"] - 4] for x in d["writes"]]}
+
+
+def all_trees(n):
+    if n == 1:
+        return [[-1]]
+    return [t + [p] for t in all_trees(n - 1) for p in range(n - 1)]
+
+
+def gen_dags(rng, tier):
+    """small: every tree with <= 3 VMs x every write list with <= 2 writes (lengths 5 / 7 bytes incl. the 4-byte molecule header) + the shapes whose reader or
+    writer never shows up; big: random trees with 4-7 VMs (the real MAX_INSTANTIATED_VMS = 4 evicts there)"""
+    small = []
+    for n in (1, 2, 3):
+        for t in all_trees(n):
+            pairs = [(a, b) for a in range(n) for b in range(n) if a != b]
+            small.append(make_dag(t, []))
+            for (a, b) in pairs:
+                for ln in (5, 7):
+                    small.append(make_dag(t, [(a, b, ln)]))
+                    for kind in ("noreader", "nowriter"):
+                        small.append(make_dag(t, [(a, b, ln)], (kind, 0)))
+                for (c2, d2) in pairs:
+                    small.append(make_dag(t, [(a, b, 6), (c2, d2, 5)]))
+                    if rng.random() < 0.25:
+                        small.append(make_dag(t, [(a, b, 6), (c2, d2, 5)], (rng.choice(["noreader", "nowriter"]), rng.randrange(2))))
+    big = []
+    for _ in range(40 if tier == "quick" else 200):
+        n = rng.randrange(4, 8)
+        t = [-1] + [rng.randrange(0, i) for i in range(1, n)]
+        nw = rng.randrange(1, 5)
+        writes = []
+        for _ in range(nw):
+            a = rng.randrange(n)
+            b = rng.choice([x for x in range(n) if x != a])
+            writes.append((a, b, rng.randrange(5, 14)))
+        mut = (rng.choice(["noreader", "nowriter"]), rng.randrange(nw)) if rng.random() < 0.2 else None
+        big.append(make_dag(t, writes, mut))
+    return small, big
+
+
+def model_state(x):
+    k = x["k"]
+    if k == "run":
+        return "run"
+    if k == "term":
+        return "term"
+    if k == "wait":
+        return "wait%d" % x["a"]
+    if k == "rd":
+        return "read%d:%d" % (x["a"], x["n"])
+    if k == "wr":
+        return "write%d:%d/%d" % (x["a"], x["m"], x["n"])
+    return None
+
+
+def compare_dag_run(m, r):
+    """model reference behaviour (REFRUN) vs the real Scheduler::iterate() run -> None | (key, text)"""
+    log, out = m["log"], m["out"]
+    iters = r["iters"]
+    real = [it for it in iters if "vm" in it]
+    for n, (e, it) in enumerate(zip(log, real)):
+        if e["vm"] != it["vm"]:
+            return ("scheduler/executed-vm", "iteration %d: model runs VM %d, code ran VM %d (model trace %s)"
+                    % (n, e["vm"], it["vm"], out["trace"]))
+        exp = [[v, model_state(x)] for v, x in enumerate(e["states"]) if model_state(x)]
+        if exp != it["states"]:
+            return ("scheduler/vm-states", "after iteration %d (VM %d): model states %s, code %s" % (n, e["vm"], exp, it["states"]))
+    if len(log) != len(real):
+        return ("scheduler/iteration-count", "model %d iterations %s, code %d iterations %s"
+                % (len(log), out["trace"], len(real), [it["vm"] for it in real]))
+    ref = r["ref"]
+    got = "ok" if ref["kind"] == "ok" else ("deadlock" if ref["class"].startswith("deadlock") else ref["class"])
+    exp = {"ok": "ok", "deadlock": "deadlock"}.get(out["status"], "exit:Inputs[0].Lock:%d" % out["code"])
+    if got != exp:
+        return ("scheduler/verdict", "model verdict %s, code %s" % (exp, got))
+    return None
+
+
+def run_vmsched(c, tier, rng, shapes):
+    small, big = gen_dags(rng, tier)
+    wd = V.workdir(PID)
+
+    def tlc_on(dags, cfg, tag, timeout=1200, need_cuts=False):
+        path = os.path.join(wd, "dags_%s.json" % tag)
+        with open(path, "w") as f:
+            json.dump(dags, f)
+        res = V.tlc(PID, "MC_VmScheduler", cfg, workers=8, timeout=timeout, env={"C05_DAGS": path}, coverage=False,
+                    xmx="10g", tag=tag)
+        ends = V.tlc_json_lines(res["out"], "ENDRUN")
+        if not res["violated"]:
+            if len(ends) < len(dags) or (need_cuts and (not any(e["mid"] for e in ends) or not any(e["end"] for e in ends))):
+                raise V.ToolError("vacuous VmScheduler run %s: %d finished runs for %d DAGs" % (cfg, len(ends), len(dags)))
+        return res, ends
+    # (1) property: suspension invariance, exhaustive over all cut points (<= 2 cuts), MaxInst = 2 so that VMs get evicted
+    sub = small if tier == "thorough" else rng.sample(small, 150)
+    res, ends = tlc_on(sub, "MC_VmScheduler_cuts.cfg", "cuts", need_cuts=True)
+    if res["violated"]:
+        c.violation("model/VmScheduler/" + res["violated"], "VmScheduler.tla violates %s" % res["violated"],
+                    {"kind": "vmodel", "cfg": "MC_VmScheduler_cuts.cfg", "tlc_tail": res["out"][-3000:]})
+    c.add_tlc(res, "MC_VmScheduler_cuts.cfg (%d DAGs)" % len(sub))
+    c.set("vmsched_finished_runs", {"total": len(ends), "with_mid_cut": sum(1 for e in ends if e["mid"]),
+                                    "with_end_cut": sum(1 for e in ends if e["end"]),
+                                    "deadlock": sum(1 for e in ends if e["status"] == "deadlock"),
+                                    "fail": sum(1 for e in ends if e["status"] == "fail")})
+    res, ends = tlc_on(rng.sample(big, 12 if tier == "quick" else 40), "MC_VmScheduler_cuts4.cfg", "cuts4", need_cuts=True)
+    if res["violated"]:
+        c.violation("model/VmScheduler4/" + res["violated"], "VmScheduler.tla (MaxInst 4) violates %s" % res["violated"],
+                    {"kind": "vmodel", "cfg": "MC_VmScheduler_cuts4.cfg", "tlc_tail": res["out"][-3000:]})
+    c.add_tlc(res, "MC_VmScheduler_cuts4.cfg")
+    # self-test: wrong suspend/resume mechanisms must be rejected
+    muts = {}
+    probe = rng.sample(small, 60) + rng.sample(big, 4)
+    for v in ["resume_charges", "inst_not_restored", "skip_io_at_limit_suspend", "lose_iteration_cycles"]:
+        res, _ = tlc_on(probe, "MC_VmScheduler_mut_%s.cfg" % v, "mut_" + v, timeout=600)
+        if res["violated"] != "SuspendInvariance":
+            raise V.ToolError("oracle self-test failed: variant %s is not rejected by SuspendInvariance (%s)" % (v, res["violated"]))
+        muts[v] = res["violated"]
+    c.set("selftest_scheduler_mechanisms_rejected_by", muts)
+    # (2) R: the uninterrupted behaviour of every DAG, replayed on the real scheduler step by step
+    dags = small + big
+    res, ends = tlc_on(dags, "MC_VmScheduler_ref.cfg", "ref")
+    if res["violated"]:
+        c.violation("model/VmSchedulerRef/" + res["violated"], "VmScheduler.tla reference run violates %s" % res["violated"],
+                    {"kind": "vmodel", "cfg": "MC_VmScheduler_ref.cfg", "tlc_tail": res["out"][-3000:]})
+        return []
+    c.add_tlc(res, "MC_VmScheduler_ref.cfg (%d DAGs)" % len(dags))
+    refs = V.tlc_json_lines(res["out"], "REFRUN")
+    bykey = {json.dumps(m["dag"], sort_keys=True): m for m in refs}
+    if len(bykey) < len({json.dumps(d, sort_keys=True) for d in dags}):
+        raise V.ToolError("reference behaviours missing: %d of %d" % (len(bykey), len(dags)))
+    uniq = [json.loads(k) for k in bykey]
+    out = harness([{"prog": "dag", "dag": dag_job(d), "mode": "ref", "iters": True} for d in uniq], "dagref")
+    stat = {"dags": len(uniq), "iterations": 0, "deadlock": 0, "fail": 0, "evicting": 0}
+    for d, r in zip(uniq, out):
+        m = bykey[json.dumps(d, sort_keys=True)]
+        stat["iterations"] += len(m["log"])
+        stat["deadlock"] += m["out"]["status"] == "deadlock"
+        stat["fail"] += m["out"]["status"] == "fail"
+        stat["evicting"] += any(len(e["inst"]) < sum(1 for x in e["states"] if x["k"] not in ("none", "term")) for e in m["log"])
+        c.case({"dag": d}, len(m["log"]) > 3)
+        bad = compare_dag_run(m, r)
+        if bad:
+            c.violation(bad[0], bad[1], {"kind": "dag", "dag": d, "model": m, "observed": r})
+    c.add("traces_validated_against_impl", len(uniq))
+    c.set("vmsched_replayed", stat)
+    if stat["deadlock"] == 0 or stat["fail"] == 0 or stat["evicting"] == 0:
+        raise V.ToolError("vacuous DAG replay: %s" % stat)
+    c.sample({"dag_reference": {"dag": uniq[len(uniq) // 2], "model_trace": bykey[json.dumps(uniq[len(uniq) // 2], sort_keys=True)]["out"]}})
+    V.log("[C05] VmScheduler: %s" % stat)
+    # the DAG witnesses also go through the chunk / budget / signal machinery
+    pick = rng.sample(uniq, 10 if tier == "quick" else 40)
+    return [(d, bykey[json.dumps(d, sort_keys=True)]) for d in pick]
+
 
 # ------------------------------------------------------------------------------------------------
 # 1. model checking
@@ -267,6 +794,15 @@ def model_checking(c, tier):
     c.set("exhaustive", True)
 
 
+def finish(c):
+    import collections
+    if c.violations:
+        cnt = collections.Counter((k, t.split(":")[0] + ":" + t.split(":")[1].split(" ")[0] if ":" in t else "") for k, t, _ in c.violations)
+        for (k, prog), n in sorted(cnt.items()):
+            V.log("[C05] violations: %4d  %s  (%s)" % (n, k, prog))
+    return c.finish()
+
+
 def run(tier):
     c = V.Check(PID, "model_checking", tier)
     rng = random.Random(V.seed())
@@ -281,7 +817,10 @@ def run(tier):
     ]
     model_checking(c, tier)
     exact_binding(c, EXACT if tier == "thorough" else EXACT[:5], tier, rng)
-    return c.finish()
+    shapes = abstract_shapes(c)
+    dag_models = run_vmsched(c, tier, rng, shapes)
+    opaque_binding(c, OPAQUE_THOROUGH if tier == "thorough" else OPAQUE_QUICK, tier, rng, shapes, dag_models)
+    return finish(c)
 
 
 def replay(path, tier):
